@@ -116,8 +116,8 @@ impl Monitor for C05 {
         let mut sj = loop {
             let s = match rng.below(4) {
                 0 => { let mut s = Sel { from: "j".into(), ..Default::default() }; s.projs.push((E::Star, None)); if rng.chance(1, 2) { s.filter = Some(gen_expr(rng, &js, &Ty::Bool, 2, &ecfg)); } s }
-                1 => gen_aggregate(rng, &js, &AggCfg { expr: ecfg.clone(), ..Default::default() }),
-                _ => gen_select(rng, &js, &StmtCfg { expr: ecfg.clone(), allow_star: false, ..Default::default() }),
+                1 => gen_aggregate(rng, &js, &AggCfg { expr: ecfg.clone(), allow_limit: true, ..Default::default() }),
+                _ => gen_select(rng, &js, &StmtCfg { expr: ecfg.clone(), allow_star: false, allow_limit: true, max_limit: 8, ..Default::default() }),
             };
             if !uses_input(&s) { break s; }
         };
